@@ -127,6 +127,84 @@ theorem init_reward_sound (v2 : Bool) (auth idx ninit : Nat) (m : MintIn) (i : N
                 simp only [Bool.true_and, decide_eq_true_eq, if_true] at hseeds hu
                 exact ⟨hseeds, verify_mint_sound m _ hu⟩
 
+/-- C19's badge clause at its root: a token badge of a config is issued (and deleted) only under the signature
+    of the token-badge authority recorded in THAT config's extension, and only while the config's TOKEN_BADGE
+    feature is on; the extension itself is created only by the config's fee authority -/
+theorem token_badge_sound (auth : Nat) (feature taken otherExt : Bool) (h : initializeTokenBadgeIx auth feature taken otherExt = .ok ()) :
+    auth ≠ 1 ∧ auth ≠ 2 ∧ feature = true ∧ taken = false ∧ otherExt = false := by
+  unfold initializeTokenBadgeIx at h
+  split at h
+  · cases h
+  · rename_i h2
+    split at h
+    · cases h
+    · rename_i ht
+      split at h
+      · cases h
+      · rename_i ho
+        split at h
+        · cases h
+        · rename_i h1
+          split at h
+          · cases h
+          · rename_i hf
+            exact ⟨h1, h2, by cases feature <;> simp_all, by cases taken <;> simp_all, by cases otherExt <;> simp_all⟩
+
+theorem delete_badge_sound (auth : Nat) (feature present : Bool) (h : deleteTokenBadgeIx auth feature present = .ok ()) :
+    auth ≠ 1 ∧ auth ≠ 2 ∧ feature = true ∧ present = true := by
+  unfold deleteTokenBadgeIx at h
+  split at h
+  · cases h
+  · rename_i h2
+    split at h
+    · cases h
+    · rename_i hp
+      split at h
+      · cases h
+      · rename_i h1
+        split at h
+        · cases h
+        · exact ⟨h1, h2, by cases feature <;> simp_all, by cases present <;> simp_all⟩
+
+theorem config_extension_sound (auth : Nat) (taken : Bool) (h : initializeConfigExtensionIx auth taken = .ok ()) :
+    auth ≠ 1 ∧ auth ≠ 2 ∧ taken = false := by
+  unfold initializeConfigExtensionIx at h
+  split at h
+  · cases h
+  · rename_i h2
+    split at h
+    · cases h
+    · rename_i ht
+      split at h
+      · cases h
+      · rename_i h1
+        exact ⟨h1, h2, by cases taken <;> simp_all⟩
+
+/-- `initialize_pool` (v1) creates pools only over SPL Token mints, with the same bounds as v2 -/
+theorem init_pool_v1_sound (keyA keyB : Nat) (t22a t22b : Bool) (price ts tierTs fee proto : Nat) (p : PoolD)
+    (h : initializePoolV1 keyA keyB t22a t22b price ts tierTs fee proto = .ok p) :
+    t22a = false ∧ t22b = false ∧ tierTs = ts ∧ keyA < keyB ∧ p.price = price ∧ MIN_SQRT_PRICE_X64 ≤ price ∧
+    price ≤ MAX_SQRT_PRICE_X64 ∧ p.ts = ts ∧ ts ≠ 0 ∧ p.feeRate = fee ∧ fee ≤ MAX_FEE_RATE ∧
+    p.protoRate = proto ∧ proto ≤ MAX_PROTOCOL_FEE_RATE := by
+  unfold initializePoolV1 at h
+  split at h
+  · cases h
+  · rename_i ht
+    split at h
+    · cases h
+    · rename_i hts
+      split at h
+      · cases h
+      · rename_i q hq
+        cases h
+        obtain ⟨h1, h2, h3, h4, h5, h6, _⟩ := init_pool_bounds _ _ _ _ _ _ _ hq
+        obtain ⟨f1, f2, f3, f4⟩ := init_pool_fields _ _ _ _ _ _ _ hq
+        rw [f1] at h2 h3
+        rw [f2] at h4
+        rw [f3] at h5
+        rw [f4] at h6
+        refine ⟨by cases t22a <;> simp_all, by cases t22a <;> cases t22b <;> simp_all, by omega, h1, f1, h2, h3, f2, h4, f3, h5, f4, h6⟩
+
 -- Non-vacuity (kernel evaluation): each initialiser succeeds on a good input and is refused on the bad ones
 example :
     (initializeConfigIx true 2500).toOption = some 2500 ∧ (initializeConfigIx true 2501).toOption = none ∧
